@@ -3790,6 +3790,20 @@ func newStorageCapabilityControllerSetTargetFunction(
 			capabilityID,
 		)
 
+		// Write the controller with its new target back to the account's
+		// capability ID to controller storage map.
+		// Only updating the loaded value does not mark its slab as changed,
+		// so the new target would not be persisted.
+
+		controller.TargetPath = newTargetPathValue
+
+		context.WriteStored(
+			address,
+			common.StorageDomainCapabilityController,
+			interpreter.Uint64StorageMapKey(capabilityID),
+			controller,
+		)
+
 		addressValue := interpreter.AddressValue(address)
 
 		handler.EmitEvent(context, StorageCapabilityControllerTargetChangedEventType, []interpreter.Value{
